@@ -151,7 +151,7 @@ def run_check(check, tier="quick", seed=0, workers=None, replay=None, log=sys.st
     budget_s = float(os.environ.get("VERIF_BUDGET_S", "0")) or check.budget_s(tier) if hasattr(check, "budget_s") else 0
     truncated = False
     hung = False
-    wall_cap = float(os.environ.get("VERIF_WALL_CAP_S", "0")) or getattr(check, "wall_cap", {"quick": 900, "thorough": 5400})[tier]
+    wall_cap = float(os.environ.get("VERIF_WALL_CAP_S", "0")) or max(getattr(check, "wall_cap", {"quick": 1800, "thorough": 5400})[tier], 1800 if tier == "quick" else 0)
     if partial_budget_s: wall_cap = min(wall_cap, partial_budget_s)
     with cf.ProcessPoolExecutor(max_workers=workers, mp_context=ctx) as ex:
         running = set()
